@@ -153,6 +153,45 @@ def reschedule (cfg : Cfg) (s : St) (rc : Bool × Nat) (interval : Nat) : Option
   else if interval = 0 then none                        -- assert( !connection_iterval.zero() )
   else (ceilDiv? rc.2 interval).bind fun q => reschedMove s q interval
 
+/-! ### `peripheral_latency_state< peripheral_latency_configuration_set< Configurations... > >`
+  The runtime switchable set: `configs` are the `Configurations...`, `cur` is `current_configuration_`. -/
+
+/-- all / none of the configurations: decided at compile time; otherwise the selected configuration is
+    asked (`peripheral_latency_feature_checker`: `result` stays false if the index matches nothing) -/
+-- src: peripheral_latency_state< configuration_set >::peripheral_latency_feature / runtime_feature
+def setFeature (configs : List Cfg) (cur : Nat) (f : Cfg → Bool) : Bool :=
+  if configs.all f then true
+  else if configs.all (fun c => !f c) then false
+  else match configs[cur]? with
+    | some c => f c
+    | none => false
+
+/-- the six feature queries of the set, collected -/
+def setCfg (configs : List Cfg) (cur : Nat) : Cfg :=
+  ⟨setFeature configs cur (·.pendingTx), setFeature configs cur (·.unacked), setFeature configs cur (·.rxNotEmpty),
+   setFeature configs cur (·.txNotEmpty), setFeature configs cur (·.rxMoreData), setFeature configs cur (·.listenAlways)⟩
+
+/-- the set always derives from `disarmable_connection_state< std::true_type, … >`
+    (`listen_if_pending_transmit_data_is_part_of_any_configuration::type` is `std::true_type`) -/
+def asDisarmable (c : Cfg) : Cfg := { c with pendingTx := true }
+
+-- src: connection_state_base::reset_connection_state (set)
+def resetStateSet (configs : List Cfg) (cur : Nat) (s : St) : Option St :=
+  resetState (asDisarmable (setCfg configs cur)) s
+
+-- src: connection_state_base::plan_next_connection_event (set: features of the set, disarmable state)
+def planNextSet (configs : List Cfg) (cur : Nat) (s : St) (latency : Nat) (e : Events) (interval : Nat)
+    (pending : Option Nat) : Option St :=
+  let l := advance (setCfg configs cur) s latency e pending
+  (dtMul interval l).bind fun t =>
+    setLastLatency (asDisarmable (setCfg configs cur))
+      { s with channelIndex := (s.channelIndex + l) % 37, eventCounter := (s.eventCounter + l) % 65536,
+               timeSince := t } l
+
+-- src: peripheral_latency_state< configuration_set >::reschedule_on_pending_data
+def rescheduleSet (configs : List Cfg) (cur : Nat) (s : St) (rc : Bool × Nat) (interval : Nat) : Option Resched :=
+  reschedule (asDisarmable (setCfg configs cur)) s rc interval
+
 /-! ### histories -/
 
 inductive Op where
